@@ -54,6 +54,7 @@ theorem truthy_ofOptStr (u : Option Str) : truthy (ofOptStr u) = (match u with |
 
 /-- x8: `"[" + s + "]"` instead of an f-string, a list handed back through `iter(parts)` instead of `yield`s -/
 @[simp] theorem add_str_str (a b : Str) : add (.str a) (.str b) = .ok (.str (a ++ b)) := by rfl
+@[simp] theorem add_str_ofOptStr (a s : Str) : add (.str a) (ofOptStr (some s)) = .ok (.str (a ++ s)) := by rfl
 @[simp] theorem iter__list (l : List PyVal) : PySet.iter_ (.list l) = .ok (.iter l) := by rfl
 
 /-- the literals of `_iter_parts` as code points -/
